@@ -146,7 +146,7 @@ REG.contract(
     prop_clauses=["rng.some", "rng.none"])
 
 REG.contract(
-    "np.arange", assumed=True, params=dict(n=Int), result=SeqOf(Int),
+    "np.arange", assumed=True, params=dict(n=Int), result=SeqOf(Int), note="np.vector",
     ensures=["len(result) == ite_(n > 0, n, 0)", "all(result[j] == j for j in range(len(result)))"])
 
 # ---------------------------------------------------------------------------------------------------------
